@@ -94,12 +94,12 @@ pub fn run(seed: u64, ntraces: usize) {
         if t % 8 == 3 { queue = vec![("cmd", 0, 0, 0), ("jump", 0, 0, 0), ("exec", 0, 0, 7), ("xfer_op", 0, 0, 0), ("deliver_fail", 0, 0, 0), ("callback", 0, 0, 0), ("refund", 0, 0, 0)]; }
         for _ in 0..nops {
             // time: sometimes jump to (just before / exactly) a scheduled eta
-            let known: Vec<u64> = etas.iter().filter_map(|e| *e).filter(|e| *e >= now).collect();
+            let known: Vec<u64> = etas.iter().filter_map(|e| *e).filter(|e| *e >= now && *e < (1u64 << 40)).collect();      // never jump to a parked proposal's eta (2^63, u64::MAX)
             now = match r.below(4) { 0 if !known.is_empty() => (*r.pick(&known)).max(now), 1 if !known.is_empty() => (*r.pick(&known)).saturating_sub(1).max(now), 2 => now, _ => now + r.below(60) };
             w.set_time(now);
             let anyone = r.pick(&users).clone();
             let forced = if queue.is_empty() { None } else { Some(queue.remove(0)) };
-            if let Some(("jump", pi, _, _)) = forced { if let Some(e) = etas[pi] { now = now.max(e); w.set_time(now); } }
+            if let Some(("jump", pi, _, _)) = forced { if let Some(e) = etas[pi] { if e < (1u64 << 40) { now = now.max(e); w.set_time(now); } } }
             let has_undelivered = pending.iter().any(|p| p.result.is_none());
             let has_delivered = pending.iter().any(|p| p.result.is_some());
             let k = match forced { Some(("cmd", _, _, _)) => 100, Some(("exec", _, 0, _)) => 6, Some(("exec", _, _, _)) => 9,
@@ -114,10 +114,12 @@ pub fn run(seed: u64, ntraces: usize) {
                 // a governance command: approve at the gateway (usually), then execute
                 let (pi, cmd, eta) = match forced { Some(("cmd", pi, cmd, eta)) => (pi, cmd, eta), _ => {
                     let pi = r.below(props.len() as u64) as usize; let cmd = *r.pick(&[0u8, 0, 0, 1, 2, 2, 3]);
-                    (pi, cmd, match r.below(3) { 0 => 0, 1 => now + min_delay + r.below(30), _ => now + r.below(min_delay + 2) }) } };
+                    (pi, cmd, match r.below(8) { 0 | 1 => 0, 2 | 3 => now + min_delay + r.below(30), 6 => 1u64 << 63, 7 => u64::MAX, _ => now + r.below(min_delay + 2) }) } };      // also etas in the upper half of u64: parked proposals
                 let p = &props[pi];
                 let mut payload = exec_payload(cmd, p, eta);
-                let variant = if forced.is_some() || r.chance(2, 3) { 0 } else { r.below(13) };
+                let variant = if forced.is_some() || r.chance(2, 3) { 0 } else { r.below(14) };
+                if variant == 13 { let mut v = vec![cmd]; v.extend_from_slice(p.target.as_bytes()); v.extend(nested_buf(&p.call_data));
+                    let mut padded = vec![0u8; 32]; let b = big(p.value); let n = b.len(); padded[32 - n..].copy_from_slice(&b); v.extend(nested_buf(&padded)); v.extend_from_slice(&eta.to_be_bytes()); payload = v; }   // the same value with leading zero bytes: the same proposal
                 if variant == 1 { payload[1..33].copy_from_slice(&[0u8; 32]); }            // zero target
                 if variant == 2 { payload.push(0); }                                         // trailing byte
                 if variant == 3 { payload[0] = 9; }                                          // unknown command
@@ -161,7 +163,8 @@ pub fn run(seed: u64, ntraces: usize) {
                 let pi = if let Some(("exec", fpi, _, _)) = forced { fpi } else if !ready.is_empty() && r.chance(3, 4) { *r.pick(&ready) } else if !waiting.is_empty() && r.chance(1, 2) { *r.pick(&waiting) } else { r.below(props.len() as u64) as usize };
                 let p = props[pi].clone();
                 let caller = if operator_path { if forced.is_some() || r.chance(4, 5) { cur_op.clone() } else { anyone.clone() } } else { anyone.clone() };
-                let (egld, esdt): (u64, Vec<(Vec<u8>, u64, BigUint)>) = match if let Some(("exec", _, _, sh)) = forced { if sh > 0 { sh - 1 } else { r.below(8) } } else { r.below(8) } {
+                let (egld, esdt): (u64, Vec<(Vec<u8>, u64, BigUint)>) = match if let Some(("exec", _, _, sh)) = forced { if sh > 0 { sh - 1 } else { r.below(9) } } else { r.below(9) } {
+                    8 => (0, (0..12).map(|i| (if i % 2 == 0 { tok.clone() } else { tok2.clone() }, 0u64, bn(1 + i as u64))).collect()),      // twelve transfers: every one is credited on failure
                     6 => (0, vec![(sft.clone(), 5, bn(7))]), 7 => (0, vec![(sft.clone(), 5, bn(2)), (sft.clone(), 6, bn(3)), (tok.clone(), 0, bn(1))]),
                     0 => (7, vec![]), 1 => (0, vec![(tok.clone(), 0, bn(11))]), 2 => (0, vec![(tok.clone(), 0, bn(5)), (tok2.clone(), 0, bn(6))]),
                     3 => (0, vec![(tok.clone(), 0, bn(3)), (tok.clone(), 0, bn(4))]), _ => (0, vec![]) };
